@@ -781,7 +781,7 @@ def stat_jobs(tier, seed):
               dict(kind=kind, target=pos, T=1.0, k_att=3, cfg=dict(width=1.5, limits="both"), tag=kind + "-boundaries-nonneg")]
     B += [dict(kind="pca", target=box, T=1.0, k_att=1, cfg=dict(width=1.5), bounds=[box["lo"], box["hi"]]),
           dict(kind="pca", target=lin, T=2.0, k_att=3, cfg=dict(width=0.7), bounds=[[0.0], [1.0]])]
-    Nh = N // 5
+    Nh = N // 2
     B += [dict(kind="hmc", target=g2, T=1.0, k_att=3, cfg=dict(epsilon=0.5, steps=8), N=Nh),
           dict(kind="hmc", target=g2, T=4.0, k_att=3, cfg=dict(epsilon=0.5, steps=8, inverse_mass=[1.0, 9.0]), N=Nh),
           dict(kind="hmc", target=cg, T=1.0, k_att=2, cfg=dict(epsilon=0.4, steps=6, inverse_mass=[[1.0, 0.5], [0.5, 2.0]]), N=Nh),
@@ -789,7 +789,7 @@ def stat_jobs(tier, seed):
           dict(kind="hmc", target=box, T=1.0, k_att=2, cfg=dict(epsilon=0.5, steps=8, inverse_mass=[[1.0, 1.2], [1.2, 9.0]]),
                bounds=[box["lo"], box["hi"]], N=Nh, tag="hmc-bounded-matrix-mass"),
           dict(kind="hmc", target=lin, T=1.0, k_att=3, cfg=dict(epsilon=0.3, steps=5), bounds=[[0.0], [1.0]], N=Nh)]
-    Ne = N // 4
+    Ne = N // 2
     B += [dict(kind="ensemble", target=g1, T=1.0, cfg=dict(n_walkers=3, iterations=2, walker=0), N=Ne),
           dict(kind="ensemble", target=g2, T=1.0, cfg=dict(n_walkers=4, iterations=1, walker=3), N=Ne),
           dict(kind="ensemble", target=cg, T=1.0, cfg=dict(n_walkers=5, iterations=2, walker=1, alpha=3.0), N=Ne),
